@@ -331,6 +331,7 @@ def layer2():
     part_h("argpartition", "arr", 4, "in", [(0, True, False), (2, False, True)], True)
     part_h("argpartition", "vec", 3, "in", [(1, False, False), (1, True, True)], True)
     part_h("vpartition", "arr", 3, "mix", [(1, True, False), (3, True, True)])
+    part_h("vpartition", "arr", 3, "unsorted", [(1, False, False), (3, False, False), (4, False, True)])   # after seeded change C10-m2
     part_h("vpartition", "dv", 3, "mix", [(1, True, False), (3, True, True)], True)
     w0_kernels(2)
     # ts_vrank on an empty series: `window - 1` underflowed in the pinned tree (recorded under C05); an ordinary harness —
